@@ -1,4 +1,4 @@
-CONSTANTS MaxGen = 1 DropStyledBlank = TRUE RowSkip = "never" Family = "mid" EmitReplay = FALSE
+CONSTANTS MaxGen = 1 DropStyledBlank = TRUE ColFold = "adjacent" RowSkip = "never" Family = "mid" EmitReplay = FALSE
 SPECIFICATION MCSpec
 VIEW View
 INVARIANTS OrigSim
